@@ -207,6 +207,7 @@ type jsonTokDec struct {
 	isArray bool
 	state   int // 0 before '[', 1 inside, 2 after ']'
 	pos     int
+	nested  bool // Token entered an object/array element
 }
 
 func (m *Machine) jsonKindOfType(t types.Type) string {
@@ -425,12 +426,37 @@ func init() {
 				d.state = 2
 				return TupleVal{m.delim(']'), IfaceVal{}}
 			}
-			panic(abortf("Decoder.Token in the middle of an array is outside the model"))
+			if d.nested {
+				panic(abortf("Decoder.Token inside a nested value is outside the model"))
+			}
+			// the next element's first token: a scalar is consumed whole (its value is not modelled:
+			// callers that look at it are outside the model), an object or array is entered - its
+			// content is unknown and taken to be non-empty
+			e := d.elems[d.pos]
+			kind := e.kind
+			if kind == "typed" {
+				kind = m.jsonKindOfType(e.v.(IfaceVal).typ)
+			}
+			switch kind {
+			case "object":
+				d.nested = true
+				return TupleVal{m.delim('{'), IfaceVal{}}
+			case "array":
+				d.nested = true
+				return TupleVal{m.delim('['), IfaceVal{}}
+			case "any", "other":
+				panic(abortf("Decoder.Token on an element of unknown JSON kind is outside the model"))
+			}
+			d.pos++
+			return TupleVal{IfaceVal{}, IfaceVal{}}
 		}
 		return TupleVal{IfaceVal{}, m.newErrorValue("EOF")}
 	})
 	regV("(*encoding/json.Decoder).More", func(m *Machine, g *Goroutine, a []Value) Value {
 		d := m.nativeOf(a[0], "More").(*jsonTokDec)
+		if d.nested {
+			return tTrue
+		}
 		return mkBool(d.state == 1 && d.pos < len(d.elems))
 	})
 	prevDecode := icTable["(*encoding/json.Decoder).Decode"]
